@@ -9,20 +9,20 @@ CONDS = [
     Cond('combinator_token_ok', "real tokenizer step at 'a' + u + C + v + 'b': one combine token spanning u C v with relation C",
          'u, v = two atoms each from {empty, space, newline, CRLF, comment, space+comment, comment+tab}; comment bodies '
          'symbolic over "a * / space > ," (len <= 2 quick / 3 thorough, no terminator inside); C in > + ~ ,',
-         timeout={'quick': 110, 'thorough': 1800}),
+         timeout={'quick': 110, 'thorough': 900}),
     Cond('descendant_token_ok', 'a filler containing whitespace between compounds is one descendant combinator',
-         'three atoms, at least one with whitespace', timeout={'quick': 110, 'thorough': 1800}),
+         'three atoms, at least one with whitespace', timeout={'quick': 110, 'thorough': 900}),
     Cond('tail_ok', 'RE_WS_END at a token boundary matches exactly when the rest is whitespace/comments (after a comment '
-         "terminator followed by '*', '/', ...)", 'len(u) <= 4 / 6, len(mid) <= 2', timeout={'quick': 110, 'thorough': 1800}),
+         "terminator followed by '*', '/', ...)", 'len(u) <= 4 / 6, len(mid) <= 2', timeout={'quick': 110, 'thorough': 900}),
     Cond('close_token_ok', "filler before ')' is part of the closing token", 'two atoms',
-         timeout={'quick': 110, 'thorough': 1200}),
+         timeout={'quick': 110, 'thorough': 600}),
     Cond('escape_spelling_ok', 'characters written as \\\\hex-space, 6-digit hex or \\\\char decode to themselves '
          '(identifier and string flavour)', 'len(s) <= 2, all of Unicode except NUL and newlines',
-         timeout={'quick': 110, 'thorough': 1200}),
+         timeout={'quick': 110, 'thorough': 600}),
     Cond('respelling_ok', 'seeded respellings (fillers from a pool of 15 at every gap, escaped identifier/string '
          'characters, quote style, case of names/keywords/flags) compile to the same structure and select the same elements',
          '15 hand-written + 1000/6000 random selector lists x 12/40 respellings each x 3 documents; VERIF_SEED rotates',
-         timeout={'quick': 110, 'thorough': 1800}, parts={'quick': 8, 'thorough': 16}),
+         timeout={'quick': 110, 'thorough': 900}, parts={'quick': 8, 'thorough': 16}),
 ]
 
 
